@@ -233,6 +233,8 @@ def corpus_workload(tier, deadline):
             for pos in range(0, size + 1):
                 if time.time() > deadline:
                     return n
+                if splits_pair(doc, pos):
+                    continue  # not a position a Python str can be cut at (ValueError there: not under test)
                 try:
                     rp = doc.resolve(pos)
                     rp.marks()
